@@ -73,11 +73,13 @@ pub fn mk_id(name: &str, generation: u64, port: u16) -> ChitchatId {
 }
 
 pub fn mk_id6(name: &str, generation: u64, port: u16) -> ChitchatId {
-    ChitchatId::new(
-        name.to_string(),
-        generation,
-        SocketAddr::new(IpAddr::V6(Ipv6Addr::new(0x2001, 0xdb8, 0, 0, 0, 0, 0, 1)), port),
-    )
+    // alternate between a global address and an IPv4-mapped one (::ffff:10.0.0.1)
+    let ip = if port % 2 == 0 {
+        Ipv6Addr::new(0x2001, 0xdb8, 0, 0, 0, 0, 0, 1)
+    } else {
+        Ipv6Addr::new(0, 0, 0, 0, 0, 0xffff, 0x0a00, 0x0001)
+    };
+    ChitchatId::new(name.to_string(), generation, SocketAddr::new(IpAddr::V6(ip), port))
 }
 
 pub struct SimNode {
